@@ -5,6 +5,10 @@ Alphabet == {"open", "data-valid", "data-unknown", "data-closed", "data-malforme
              "poll-valid", "poll-unknown", "poll-closed", "poll-malformed",
              "close-valid", "close-unknown", "close-closed", "close-malformed", "backend-send", "backend-close"}
 Seqs(n) == UNION {[1..k -> Alphabet] : k \in 1..n}
+\* longer histories of one session made of well-formed steps only (what an earlier step leaves behind decides what a
+\* later one must answer: a refused data call in front of a poll, a close after the backend has gone, ...)
+ValidOps == {"data-valid", "poll-valid", "close-valid", "backend-send", "backend-close"}
+HistSeqs(lo, hi) == UNION {[1..k -> ValidOps] : k \in lo..hi}
 UrlClasses == {"abs-http-foreign", "abs-https-foreign", "abs-ws-foreign", "abs-wss-foreign", "scheme-relative", "path-only", "path-query",
                "opaque", "opaque-mailto", "empty", "userinfo", "ipv6", "odd-port", "empty-port", "fragment", "parse-error", "raw-bytes",
                "backend-host", "dot-segments", "encoded-path",
@@ -24,5 +28,5 @@ TextClasses == {"ascii", "quote", "backslash", "lt", "gt", "amp", "latin1", "ast
 VARIABLE x
 GInit == x = 0
 GNext == x' = x
-ASSUME JsonSerialize(IOEnv.VERIF_OUT, [seqs |-> SetToSeq(Seqs(3)), urls |-> SetToSeq(UrlClasses), reserved |-> SetToSeq(Reserved), textclasses |-> SetToSeq(TextClasses), alphabet |-> SetToSeq(Alphabet)])
+ASSUME JsonSerialize(IOEnv.VERIF_OUT, [seqs |-> SetToSeq(Seqs(3)), histseqs |-> SetToSeq(HistSeqs(4, 5)), urls |-> SetToSeq(UrlClasses), reserved |-> SetToSeq(Reserved), textclasses |-> SetToSeq(TextClasses), alphabet |-> SetToSeq(Alphabet)])
 =============================================================================
